@@ -10,8 +10,8 @@ for d in sorted(glob.glob("/verif/seeded/*")):
     c = m.get("confirmed_by_verif", {})
     caught = ", ".join(c.get("caught_by_quick") or []) or "**none**"
     thor = ", ".join(c.get("caught_by_thorough") or [])
-    rows.append("| `%s` | %s | %s | %s | %s%s |" % (os.path.basename(d), m.get("property"), (m.get("summary") or "").replace("|", "/").replace("\n", " ")[:230],
-                                              (m.get("needs_to_manifest") or "").replace("|", "/").replace("\n", " ")[:200], caught, (" (thorough: " + thor + ")") if thor else ""))
+    rows.append("| `%s` | %s | %s | %s | %s%s |" % (os.path.basename(d), m.get("property"), (m.get("summary") or "").replace("|", "/").replace("\n", " ")[:170],
+                                              (m.get("needs_to_manifest") or "").replace("|", "/").replace("\n", " ")[:150], caught, (" (thorough: " + thor + ")") if thor else ""))
 print("| seed | property | change | needs, to manifest | caught by (quick tier) |")
 print("|---|---|---|---|---|")
 print("\n".join(rows))
